@@ -138,6 +138,36 @@ func k8(args []string) {
 		res.C15 = append(res.C15, k8Case{l.name, string(got) == ref, diffHint(ref, string(got))})
 	}
 
+	// several generator FUNCTION LITERALS in one file (their source comments are collected per file): the
+	// same source compiled five times in separate processes must give the same bytes
+	{
+		var lb strings.Builder
+		lb.WriteString("package lits\n\nimport (\n\t\"github.com/goghcrow/go-co\"\n)\n\n")
+		for i := 0; i < 7; i++ {
+			fmt.Fprintf(&lb, "// L%d yields %d values\nvar L%d = func(n int) co.Iter[int] {\n\tfor i := 0; i < n+%d; i++ {\n\t\tco.Yield(i * %d)\n\t}\n\treturn nil\n}\n\n", i, i, i, i, i+1)
+		}
+		lb.WriteString("func Decl(n int) co.Iter[int] {\n\tco.Yield(n)\n\tf := func() co.Iter[int] {\n\t\tco.Yield(-n)\n\t\treturn nil\n\t}\n\tco.YieldFrom(f())\n\treturn nil\n}\n")
+		src := filepath.Join(mod, "c15", "lits", "src")
+		mustWrite(filepath.Join(src, "lits", "lits.go"), lb.String())
+		var first string
+		same, detail := true, ""
+		for run := 0; run < 5; run++ {
+			dst := filepath.Join(mod, "c15", "lits", fmt.Sprintf("out%d", run))
+			if out, err := compile(src, dst); err != nil {
+				same, detail = false, "compile failed: "+tail(out, 300)
+				break
+			}
+			got, _ := os.ReadFile(filepath.Join(dst, "lits", "lits.go"))
+			if run == 0 {
+				first = string(got)
+			} else if string(got) != first {
+				same, detail = false, fmt.Sprintf("run %d differs from run 0: %s", run, diffHint(first, string(got)))
+				break
+			}
+		}
+		res.C15 = append(res.C15, k8Case{"generator-literals-repeated-runs", same && first != "", detail})
+	}
+
 	// ---------------- C16 ----------------
 	cogen := filepath.Join(mod, "cogen.bin")
 	b := exec.Command("go", "build", "-o", cogen, "github.com/goghcrow/go-co/cmd/cogen")
@@ -156,6 +186,10 @@ func k8(args []string) {
 		files := map[string]string{
 			"pkg/types.go": types, "pkg/gen_co.go": gen, "pkg/gen_co_test.go": genTest, "pkg/noapi_co.go": noapi,
 			"pkg/other_co.go": otherGen, "pkg/sub/gen_co.go": subGen, "pkg/sub/doc.go": "package sub\n",
+			// the marker "_co" inside a base name and inside a directory name: only the final suffix is stripped
+			"pkg/tcp_conn_co.go":         coFile("pkg", "co", []string{"RangeBreakContinue"}, "T"),
+			"pkg/wire_codec/frame_co.go": coFile("wire_codec", "co", []string{"RangeStringBytes"}, "W"),
+			"pkg/wire_codec/doc.go":      "package wire_codec\n",
 		}
 		for rel, c := range files {
 			mustWrite(filepath.Join(root, rel), c)
@@ -174,7 +208,8 @@ func k8(args []string) {
 			res.C16 = append(res.C16, k8Case{"cogen-run", false, tail(out, 600)})
 		} else {
 			after := snapshot(root)
-			want := map[string]bool{"pkg/gen.go": true, "pkg/gen_test.go": true, "pkg/other.go": true, "pkg/sub/gen.go": true}
+			want := map[string]bool{"pkg/gen.go": true, "pkg/gen_test.go": true, "pkg/other.go": true, "pkg/sub/gen.go": true,
+				"pkg/tcp_conn.go": true, "pkg/wire_codec/frame.go": true}
 			var created, changed []string
 			for p, c := range after {
 				if old, ok := before[p]; !ok {
